@@ -33,6 +33,7 @@ type World struct {
 
 	pureAliases map[string]*PureFn
 	pureByKey   map[string]*PureFn
+	pureByName  map[string]*PureFn
 	counter     int
 	readsDone   bool
 	discovering bool
